@@ -859,9 +859,9 @@ def compare(run: Run, cases: list[dict], full: bool = True, lxml_check: bool = T
             continue
         per, perfin = {}, {}
         for item in rfield.split('|'):
-            i, mv, sv, k, fin, same = item.split(':')
+            i, mv, sv, k, fin, same, ev10, ev30 = item.split(':')
             per[int(i)] = (mv, sv, int(k))
-            perfin[int(i)] = (fin, same)
+            perfin[int(i)] = (fin, same, ev10, ev30)
         path = cj['xpath']
         st.count(f'lib:{c["lib"]}')
         st.count(f'mode:{c["mode"]}')
@@ -908,12 +908,14 @@ def compare(run: Run, cases: list[dict], full: bool = True, lxml_check: bool = T
         use_lxml = (lxml_check and not c.get('init') and c['lib'] == 'lxml' and c['mode'] == 'doc' and 'namespace' not in axes_of(c['expr'])
                     # libxml2's preceding axis stops at the first child of the document node
                     # (xmlXPathNextPrecedingInternal), wrong for nodes after the root element
-                    and not ('preceding' in axes_of(c['expr']) and b.post_objs))
+                    and not ('preceding' in axes_of(c['expr']) and b.post_objs)
+                    # libxml2's following axis of an attribute skips the children of the owner element
+                    and not ({'following', 'attribute'} <= axes_of(c['expr'])))
         for i in ctxs:
             mv, sv, k = per[i]
             init = c.get('init')
             impl = it.select_tok(toks['1.0'], i, init)
-            tags = (['F01b'] if k & 1 else []) + (['F01c'] if k & 2 else []) + (['F01i'] if k & 4 else [])
+            tags = []
             cji = dict(cj, ctx=i, init=init)
             if perfin[i][1] != '1' and not (init and init[2]):
                 run.disagree(Disagreement(cji, 'driver: evalS value differs from eval', what='protocol-evalS'))
@@ -923,10 +925,7 @@ def compare(run: Run, cases: list[dict], full: bool = True, lxml_check: bool = T
                 if it.left != perfin[i][0]:
                     # specified (theorem eval_leaves_context): unchanged, unless the expression ends in a
                     # namespace step on the caller's own context
-                    e0 = c['expr']
-                    while e0[0] in ('g', 'count'):
-                        e0 = e0[1]
-                    ns_tail = e0[0] == 's' and e0[1] == 'namespace'
+                    ns_tail = False     # (the namespace axis gives the focus back since fix ca057dd)
                     entry = f'{i},{(init[2] if init and init[2] else "-")},{init[0] if init else 1},{init[1] if init else 1}'
                     run.disagree(Disagreement(cji, it.left, perfin[i][0], None if (ns_tail or (init and init[2])) else entry,
                                               what='caller-context-after-evaluation',
@@ -962,6 +961,12 @@ def compare(run: Run, cases: list[dict], full: bool = True, lxml_check: bool = T
                         ctx = it.XPathContext(it.node_tree, namespaces=dict(b.ns), fragment=it.frag, item=it.ctxnode[i])
                         ev = toks[v].evaluate(ctx)
                         r = it.indices(ev if isinstance(ev, list) else [ev])
+                        # the shape evaluate() returns: a list or a single node (model: EPV.XP.evaluate)
+                        shape = ('L' if isinstance(ev, list) else 'I') + r[1:]
+                        want_shape = perfin[i][2 if v == '1.0' else 3]
+                        if r.startswith('N') and shape != want_shape:
+                            run.disagree(Disagreement(dict(cji, parser=v, api='token.evaluate'), shape, want_shape, None,
+                                                      what='evaluate-return-shape', site='XPathToken.evaluate / evaluate__parenthesized_expr'))
                     except Exception as e:
                         r = err_code(e)
                     st.count('evaluate-path-checked')
@@ -1084,7 +1089,9 @@ def state_correspond(run: Run, cases: list[dict]) -> None:
                         next(g)
                         g.close()
                         closed = f'{idx(ctx2.item)},{ctx2.axis or "-"}'
-                        want = ys[0].split(',', 1)[1]
+                        # since fix 8377c57 every iterator restores in a `finally:` clause: closing the generator
+                        # early leaves the context as it was on entry (model: closeAfter = finalizer after the yield)
+                        want = f'{i},-'
                         st.count('early-close-checked')
                         if closed != want:
                             run.disagree(Disagreement(dict(cj, ctx=i, axis=ax), closed, want, None,
@@ -1221,7 +1228,7 @@ def history_correspond(run: Run) -> None:
         st.count('history-step-checked')
         st.case(['history', c['lib'], c['mode'], path, json.dumps(c['ns'], sort_keys=True), b.tree_field()], nontrivial=bool(ids))
         if got != want:
-            tags = (['F01b'] if int(k) & 1 else []) + (['F01c'] if int(k) & 2 else []) + (['F01i'] if int(k) & 4 else [])
+            tags = []
             run.disagree(Disagreement(cj, str(got)[:300], mv, str(want)[:300], what='public-api-call-history',
                                       site='xpath_selectors.py select / iter_select / Selector', tags=tags))
 
@@ -1668,13 +1675,15 @@ def translate_methods(run: Run) -> dict:
         a10 = P['1.0'].symbol_table['attribute']
         a20 = P['2.0'].symbol_table['attribute']
         f10, f20 = fn_ast(a10.select), fn_ast(a20.select)
-        loop10 = [n for n in f10.body if isinstance(n, ast.For)]
+        # 1.0: `if context is None: raise … elif isinstance(context.item, AttributeNode): return` + the loop
+        first_if = next(n for n in f10.body if isinstance(n, ast.If))
+        loop10 = list(first_if.orelse) + [n for n in f10.body if isinstance(n, ast.For)]
         # 2.0: `if context is None: raise … elif self.label == 'axis': <body> …`
         branch20 = None
         for n in ast.walk(f20):
             if isinstance(n, ast.If) and ast.unparse(n.test) == "self.label == 'axis'":
                 branch20 = n.body
-        facts.append(('attribute20-axis-branch-is-the-1.0-loop', branch20 is not None and len(loop10) == 1 and
+        facts.append(('attribute20-axis-branch-is-the-1.0-loop', branch20 is not None and len(loop10) == 2 and
                       dump(branch20) == dump(loop10)))
         facts.append(('attribute-select-is-the-same-in-2.0-3.0-3.1',
                       a20.select is P['3.0'].symbol_table['attribute'].select is P['3.1'].symbol_table['attribute'].select))
@@ -1692,8 +1701,44 @@ def translate_methods(run: Run) -> dict:
                       P['3.0'].symbol_table['('].select is XPathToken.select))
         facts.append(('paren31-is-the-3.0-object', P['3.0'].symbol_table['('].select is P['3.1'].symbol_table['('].select and
                       P['3.0'].symbol_table['('].evaluate is P['3.1'].symbol_table['('].evaluate))
+        # the evaluate() path (EPV/Model/AxesEvaluate.lean)
+        def src(f):
+            return ast.unparse(fn_ast(f))
+        st10 = P['1.0'].symbol_table
+        xl = 'return xlist(self.select(context))'
+        facts.append(('name-prefixed-name-and-wildcard-evaluate-are-xlist-of-select',
+                      all(xl in src(st10[k].evaluate) for k in ('(name)', ':', '*'))))
+        facts.append(('context-item-evaluate-returns-the-item', 'return context.item' in src(st10['.'].evaluate)))
+        facts.append(('parent-shortcut-evaluate-returns-first-parent-or-empty',
+                      'for value in copy(context).iter_parent():\n        return value\n    else:\n        return []'
+                      in src(st10['..'].evaluate)))
+        facts.append(('paren10-evaluate-is-operand-evaluate',
+                      [ast.unparse(n) for n in fn_ast(st10['('].evaluate).body if not isinstance(n, ast.Expr)] ==
+                      ['return self[0].evaluate(context)']))
+        facts.append(('paren20-evaluate-is-operand-evaluate',
+                      [ast.unparse(n) for n in fn_ast(P['2.0'].symbol_table['('].evaluate).body if not isinstance(n, ast.Expr)] ==
+                      ['return self[0].evaluate(context) if self else []']))
+        s30 = src(P['3.0'].symbol_table['('].evaluate)
+        facts.append(('paren30-evaluate-unwraps-a-one-item-list-of-the-operand-evaluate',
+                      'value = self[0].evaluate(context)\n    if isinstance(value, list) and len(value) == 1:\n        value = value[0]' in s30
+                      and 'if self[0].span[0] > self.span[0]:\n        return value' in s30))
+        facts.append(('generic-select-expands-evaluate',
+                      [ast.unparse(n) for n in fn_ast(XPathToken.select).body if not isinstance(n, ast.Expr)] ==
+                      ['item = self.evaluate(context)', 'if isinstance(item, list):\n    yield from item\nelse:\n    yield item']))
+        facts.append(('generic-evaluate-is-xlist-of-select',
+                      [ast.unparse(n) for n in fn_ast(XPathToken.evaluate).body if not isinstance(n, ast.Expr)] == [xl]))
     except Exception as e:     # source not available / shape changed: the fact is false, the theorem breaks
         facts.append((f'introspection-failed-{type(e).__name__}', False))
+    # which of evaluate / select is the generic XPathToken method, per symbol and parser class
+    # (2 = generic evaluate, 1 = generic select, 0 = both defined by the token class)
+    es_rows = []
+    for sym in FRAGMENT_SYMBOLS:
+        codes = []
+        for v in ('1.0', '2.0', '3.0', '3.1'):
+            stv = P[v].symbol_table
+            cls = stv.get(sym) or stv.get(fn_ns + sym)
+            codes.append((2 if cls.evaluate is XPathToken.evaluate else 0) + (1 if cls.select is XPathToken.select else 0))
+        es_rows.append((sym, codes))
 
     def ll(x):
         return '[' + ', '.join(ll(y) if isinstance(y, list) else str(y) for y in x) + ']'
@@ -1708,6 +1753,9 @@ def translate_methods(run: Run) -> dict:
     out.append(',\n'.join(f'  ("{sym}", {ll(m)})' for sym, m in arows) + ']')
     out += ['', '/-- structural facts (AST comparison of the live sources) about `attribute` and `(` in 2.0+ -/',
             'def facts : List (String × Bool) := [' + ', '.join(f'("{n}", {"true" if v else "false"})' for n, v in facts) + ']']
+    out += ['', '/-- per symbol and parser class: 2 = evaluate is the generic XPathToken.evaluate, 1 = select is the generic',
+            'XPathToken.select, 0 = the token class defines both -/',
+            'def evalSelect : List (String × List Nat) := [' + ', '.join(f'("{sym}", {ll(c)})' for sym, c in es_rows) + ']']
     out += ['', 'end EPV.Gen.C01', '']
     gen = LEAN / 'EPV' / 'Gen' / 'C01Methods.lean'
     gen.parent.mkdir(exist_ok=True)
@@ -1732,7 +1780,8 @@ def body(run: Run) -> int:
     run.stats.extra['method_table'] = translate_methods(run)
     run.trusted_base.append('translator harness/c01.py::translate_methods (function-object identity of the token methods of the '
                             'four parser classes, printed as a Lean table)')
-    run.prove(['EPV.Props.C01', 'EPV.Props.C01Methods'], ['EPV.Spec.XPath1Paths', 'EPV.Model.AxesTree', 'EPV.Model.AxesState', 'EPV.Model.AxesEvalState', 'EPV.Proto'])
+    run.prove(['EPV.Props.C01', 'EPV.Props.C01Methods'], ['EPV.Spec.XPath1Paths', 'EPV.Model.AxesTree', 'EPV.Model.AxesState', 'EPV.Model.AxesEvalState',
+                                       'EPV.Model.AxesEvaluate', 'EPV.Proto'])
     try:
         if getattr(run, 'replay', None):
             data = json.loads(Path(run.replay).read_text())
